@@ -3,7 +3,7 @@
    regenerated on every run from Processor.__deepcopy__, ModelGroup.__deepcopy__ and the copy
    sites of observation / dask observation / calibration. *)
 From Coq Require Import String ZArith List Arith Bool Lia.
-From PyxelV Require Import Model.Heap Proofs.HeapFrame.
+From PyxelV Require Import Model.Heap Model.HeapExc Proofs.HeapFrame Proofs.HeapExcFrame.
 From PyxelGen Require Import Gen_C06.
 Import ListNotations.
 Open Scope string_scope.
@@ -143,27 +143,183 @@ Proof.
 Qed.
 Print Assumptions C06_shallow_refuted.
 
-(* Parameter values are payload (immutable) in C06_frame.  The faithful model of the sequential
-   mode's defaults - a parameter value that is a REFERENCE to one of the caller's mutable objects,
-   stored uncopied by Processor.set - refutes the statement: full statement, witness (finding
-   C06-ndarray-default-aliased; the true restriction is C06_frame itself, whose run hypothesis
-   excludes such references) *)
-Definition C06_frame_reference_params_full : Prop :=
+(* ------------------------------------------------------------------ failing runs (round 2) *)
+
+(* what the current source says about the five copy sites: none of them writes to anything derived
+   from the processor it is given (no attribute / item store, no mutating call; regenerated) *)
+Theorem C06_source_sites_pure : sites_pure src_site_effects = true.
+Proof. vm_compute. reflexivity. Qed.
+Print Assumptions C06_source_sites_pure.
+
+(* the frame statement on the exceptional path, for a copy policy and a site kind: for EVERY
+   parameter-setting function (which may reject a value after having applied some of the keys) and
+   EVERY pipeline (which may raise after having changed what it changed) that touch only what they
+   reach from the processor they are given, for EVERY history of calls - each call a list of runs,
+   aborted at its first failing run (loop) or not (dask), followed by further calls - every location
+   of the caller's heap holds what it held before the first call *)
+Definition C06_frame_exc_statement (pol : policy) (k : skind) : Prop :=
+  forall (params res : Type) (setp : params -> heap -> loc -> heap * bool)
+         (run : params -> heap -> loc -> heap * option res),
+    (forall ps s l, frame_ok s l (fst (exec params res setp run ps s l))) ->
+    forall cs s0 p x, x < length s0 ->
+      nth_error (fst (calls_exc params res setp run pol k cs s0 p)) x = nth_error s0 x.
+
+Theorem C06_frame_exc : forall site m e k,
+  In (site, m) src_sites -> In (site, e) src_site_effects -> kind_of m e = Some k ->
+  C06_frame_exc_statement src_policy k.
+Proof.
+  intros site m e k Hm He Hk params res setp run Hfr cs s0 p x Hx.
+  assert (m = Deep) by (eapply sites_ok_In; [|exact Hm]; vm_compute; reflexivity). subst m.
+  assert (e = Pure).
+  { assert (P : sites_pure src_site_effects = true) by (vm_compute; reflexivity).
+    unfold sites_pure in P. rewrite forallb_forall in P. specialize (P _ He). simpl in P.
+    destruct e; [reflexivity|discriminate]. }
+  subst e. simpl in Hk. inversion Hk; subst k.
+  apply calls_exc_frame_locs; auto; vm_compute; reflexivity.
+Qed.
+Print Assumptions C06_frame_exc.
+
+(* the outcome of a run - its result, or the fact that it fails - does not depend on the history:
+   which calls were made before, which of their runs failed and where they were aborted *)
+Theorem C06_outcome_independent_of_history :
+  forall (params res : Type) (setp : params -> heap -> loc -> heap * bool)
+         (run : params -> heap -> loc -> heap * option res),
+    (forall ps s l, frame_ok s l (fst (exec params res setp run ps s l))) ->
+    (forall ps sa sb C, closed_graph C -> C <> [] ->
+       snd (exec params res setp run ps (sa ++ shift (length sa) C) (length sa)) =
+       snd (exec params res setp run ps (sb ++ shift (length sb) C) (length sb))) ->
+    forall cs ps s0 p s1 c,
+      deepcopy src_policy s0 p = Some (s1, c) ->
+      snd (step_exc params res setp run src_policy KCopy ps
+             (fst (calls_exc params res setp run src_policy KCopy cs s0 p)) p) =
+      snd (step_exc params res setp run src_policy KCopy ps s0 p).
+Proof.
+  intros params res setp run Hfr Hloc cs ps s0 p s1 c Hd.
+  eapply outcome_after_history; eauto; vm_compute; reflexivity.
+Qed.
+Print Assumptions C06_outcome_independent_of_history.
+
+(* non-vacuity: a setter that rejects negative values and a pipeline that raises when the detector
+   memory exceeds 100 satisfy the hypotheses; a history with a rejected value, an aborted call and a
+   raising model leaves the caller's detector (memory 5) alone, and the run after it returns what it
+   returns on the initial heap *)
+Example exc_hypotheses_satisfiable :
+  (forall k s l, frame_ok s l (fst (exec Z Z setp_nonneg run_touch_limit k s l))) /\
+  (forall k sa sb C, closed_graph C -> C <> [] ->
+     snd (exec Z Z setp_nonneg run_touch_limit k (sa ++ shift (length sa) C) (length sa)) =
+     snd (exec Z Z setp_nonneg run_touch_limit k (sb ++ shift (length sb) C) (length sb))).
+Proof. split; [exact exec_nonneg_limit_frame | exact exec_nonneg_limit_local]. Qed.
+
+Example calls_exc_demo :
+  let h := [(true, [1; -1; 2]); (false, [200; 3]); (true, [4])]%Z in
+  snd (calls_exc Z Z setp_nonneg run_touch_limit src_policy KCopy h demo_heap 0) =
+    [[Some 6; None]; [None; Some 8]; [Some 9]]%Z /\
+  nth_error (fst (calls_exc Z Z setp_nonneg run_touch_limit src_policy KCopy h demo_heap 0)) 1 =
+    nth_error demo_heap 1.
+Proof. vm_compute. split; reflexivity. Qed.
+
+(* a site of the effect class Touches - it empties the references of the caller's detector before
+   copying and puts them back afterwards, without a finally clause - keeps the frame on a history
+   without failures and loses it at the first rejected value; a site that works in place loses it
+   anyway: the exceptional path is a separate obligation and the model can express its failure *)
+Example detach_site_normal_path :
+  nth_error (fst (calls_exc Z Z setp_nonneg run_touch_some src_policy (KDetach false)
+                    [(true, [1; 2; 3]); (false, [4])]%Z demo_heap 0)) 1 = nth_error demo_heap 1.
+Proof. vm_compute. reflexivity. Qed.
+
+Theorem C06_touching_site_refuted :
+  ~ C06_frame_exc_statement src_policy (KDetach false) /\
+  ~ C06_frame_exc_statement src_policy KInPlace.
+Proof.
+  split; intro F.
+  - assert (W : nth_error (fst (calls_exc Z Z setp_nonneg run_touch_some src_policy (KDetach false)
+                                  [(true, [1; -1])]%Z demo_heap 0)) 1 <> nth_error demo_heap 1).
+    { vm_compute. intro H; inversion H. }
+    apply W. apply (F Z Z setp_nonneg run_touch_some exec_nonneg_touch_frame). simpl; lia.
+  - assert (W : nth_error (fst (calls_exc Z Z setp_nonneg run_touch_some src_policy KInPlace
+                                  [(true, [1])]%Z demo_heap 0)) 1 <> nth_error demo_heap 1).
+    { vm_compute. intro H; inversion H. }
+    apply W. apply (F Z Z setp_nonneg run_touch_some exec_nonneg_touch_frame). simpl; lia.
+Qed.
+Print Assumptions C06_touching_site_refuted.
+
+(* ... and the same site WITH a finally clause keeps the frame on every history, failing runs
+   included (here set and run are constrained separately, because the site acts between them; the
+   values Processor.set stores are payload or new objects: it makes no pre-existing location newly
+   reachable).  So what separates the two is exactly the exceptional path. *)
+Theorem C06_guarded_touching_site_keeps_frame :
+  forall (params res : Type) (setp : params -> heap -> loc -> heap * bool)
+         (run : params -> heap -> loc -> heap * option res),
+    (forall ps s l, frame_ok s l (fst (setp ps s l))) ->
+    (forall ps s l, frame_ok s l (fst (run ps s l))) ->
+    (forall ps s l x, reach (fst (setp ps s l)) l x -> x < length s -> reach s l x) ->
+    forall cs s0 p x, x < length s0 ->
+      nth_error (fst (calls_exc params res setp run src_policy (KDetach true) cs s0 p)) x = nth_error s0 x.
+Proof.
+  intros params res setp run H1 H2 H3 cs s0 p x Hx.
+  apply calls_detach_guarded_frame; auto; vm_compute; reflexivity.
+Qed.
+Print Assumptions C06_guarded_touching_site_keeps_frame.
+
+Example guarded_site_hypotheses_satisfiable :
+  (forall k s l, frame_ok s l (fst (setp_nonneg k s l))) /\
+  (forall k s l, frame_ok s l (fst (run_touch_some k s l))) /\
+  (forall k s l x, reach (fst (setp_nonneg k s l)) l x -> x < length s -> reach s l x) /\
+  snd (calls_exc Z Z setp_nonneg run_touch_some src_policy (KDetach true) [(true, [1; -1; 2])]%Z demo_heap 0)
+    = [[Some 6; None]]%Z.
+Proof.
+  split; [exact setp_nonneg_frame|]. split; [exact run_touch_some_frame|].
+  split; [exact setp_nonneg_no_capture|]. vm_compute. reflexivity.
+Qed.
+
+(* ------------------------------------------------------------------ reference-valued parameters *)
+
+(* Parameter values are payload (immutable) in C06_frame.  A parameter value can also be a REFERENCE
+   to one of the caller's mutable objects: in sequential mode the default of every swept key is
+   processor.get(key) of the CALLER's processor (an ndarray, the inner lists of a nested list), in
+   calibration it is a numpy view of the candidate vector shared by all processors of the candidate.
+   The run may then change what it reaches from its processor OR from the value it was given.
+   The sites that hand such values on - create_new_processor, update_processor - deep-copy the value
+   first (regenerated flag src_value_copy; repaired by the fix: commits, formerly the findings
+   C06-ndarray-default-aliased / C06-container-default-aliased / C06-fitness-slice-view-shared), and
+   with that copy the frame statement holds with NO exception for reference-valued parameters *)
+Definition C06_frame_reference_params_statement (vcopy : bool) : Prop :=
   forall (res : Type) (run : loc -> heap -> loc -> heap * res),
     (forall d s l, frame2_ok s l d (fst (run d s l))) ->
-    forall rs s0 p sn out,
-      observe loc res run src_policy Deep rs s0 p = Some (sn, out) ->
+    forall ds s0 p sn out,
+      observe_ref res run vcopy src_policy ds s0 p = Some (sn, out) ->
       forall x, x < length s0 -> nth_error sn x = nth_error s0 x.
 
-Theorem C06_reference_param_refuted : ~ C06_frame_reference_params_full.
+Theorem C06_frame_reference_params :
+  C06_frame_reference_params_statement (flag_of src_value_copy "create_new_processor") /\
+  C06_frame_reference_params_statement (flag_of src_value_copy "update_processor").
 Proof.
-  assert (W : exists sn out, observe loc Z run_param src_policy Deep [7; 7] demo_heap 0 = Some (sn, out) /\
+  assert (E1 : flag_of src_value_copy "create_new_processor" = true) by (vm_compute; reflexivity).
+  assert (E2 : flag_of src_value_copy "update_processor" = true) by (vm_compute; reflexivity).
+  rewrite E1, E2.
+  assert (G : C06_frame_reference_params_statement true).
+  { intros res run Hfr ds s0 p sn out H x Hx.
+    eapply observe_ref_frame; eauto; vm_compute; reflexivity. }
+  split; exact G.
+Qed.
+Print Assumptions C06_frame_reference_params.
+
+Example value_copy_demo :
+  exists sn, observe_ref Z run_param true src_policy [7; 7] demo_heap 0 = Some (sn, [1; 1]%Z) /\
+             nth_error sn 7 = nth_error demo_heap 7.
+Proof. vm_compute. eexists. split; reflexivity. Qed.
+
+(* non-vacuity: the copy of the value is what makes it true - a site that hands the caller's object
+   on as it is (what create_new_processor did before the repair) loses the frame *)
+Theorem C06_value_copy_necessary : ~ C06_frame_reference_params_statement false.
+Proof.
+  assert (W : exists sn out, observe_ref Z run_param false src_policy [7; 7] demo_heap 0 = Some (sn, out) /\
                              nth_error sn 7 <> nth_error demo_heap 7).
   { vm_compute. do 2 eexists. split; [reflexivity|]. intro H; inversion H. }
   intro F. destruct W as [sn [out [E N]]]. apply N.
   eapply (F Z run_param run_param_frame2); [exact E|]. simpl; lia.
 Qed.
-Print Assumptions C06_reference_param_refuted.
+Print Assumptions C06_value_copy_necessary.
 
 (* and the shallow copy of the whole processor (copy.copy) shares everything below it *)
 Example shallow_shares :
